@@ -296,37 +296,33 @@ def check_group(ctx: Ctx, rep: Report, wm: WalkModel) -> None:
     ok = None
     detail = ""
     found = False
-    for n in own_nodes(g.node):
-        if isinstance(n, ast.For) and isinstance(n.iter, ast.Call) and isinstance(n.iter.func, ast.Name) and n.iter.func.id == "range" and len(n.iter.args) == 1 and isinstance(n.target, ast.Name):
-            i = n.target.id
-            bound = norm(defs.expand(n.iter.args[0]))
-            for st in n.body:
-                if isinstance(st, ast.Assign) and isinstance(st.targets[0], ast.Subscript):
-                    key = st.targets[0].slice
-                    val = st.value
-                    if isinstance(val, ast.Subscript) and isinstance(val.slice, ast.Slice):
-                        found = True
-                        sl = val.slice
-                        stride = norm(defs.expand(sl.step)) if sl.step is not None else None
-                        lower = norm(sl.lower) if sl.lower is not None else None
-                        ok = (
-                            bound == f"len({eff_param})"
-                            and stride == f"len({eff_param})"
-                            and lower == i
-                            and sl.upper is None
-                            and norm(val.value) == vb_param
-                            and norm(key) == f"{eff_param}[{i}]"
-                        )
-                        detail = f"for {i} in range({bound}): [{norm(key)}] = {norm(val.value)}[{lower}:{norm(sl.upper) if sl.upper else ''}:{stride}]"
-        if isinstance(n, ast.For) and isinstance(n.iter, ast.Call) and isinstance(n.iter.func, ast.Name) and n.iter.func.id == "enumerate" and isinstance(n.target, ast.Tuple) and len(n.target.elts) == 2:
-            i, root = norm(n.target.elts[0]), norm(n.target.elts[1])
-            for st in n.body:
-                if isinstance(st, ast.Assign) and isinstance(st.targets[0], ast.Subscript) and isinstance(st.value, ast.Subscript) and isinstance(st.value.slice, ast.Slice):
-                    found = True
-                    sl = st.value.slice
-                    stride = norm(defs.expand(sl.step)) if sl.step is not None else None
-                    ok = norm(n.iter.args[0]) == eff_param and stride == f"len({eff_param})" and sl.lower is not None and norm(sl.lower) == i and sl.upper is None and norm(st.value.value) == vb_param and norm(st.targets[0].slice) == root
-                    detail = norm(st)
+    comps: List[ast.DictComp] = [n for n in own_nodes(g.node) if isinstance(n, ast.DictComp)]
+    for name, vals in defs.assigns.items():
+        for val, _ in vals:
+            synth = defs.fill_loop(name, val)
+            if isinstance(synth, ast.DictComp):
+                comps.append(synth)
+    for comp in comps:
+        if len(comp.generators) != 1 or comp.generators[0].ifs:
+            continue
+        gen = comp.generators[0]
+        val = comp.value
+        if not (isinstance(val, ast.Subscript) and isinstance(val.slice, ast.Slice)):
+            continue
+        sl = val.slice
+        stride = norm(defs.expand(sl.step)) if sl.step is not None else None
+        lower = norm(sl.lower) if sl.lower is not None else None
+        if isinstance(gen.iter, ast.Call) and isinstance(gen.iter.func, ast.Name) and gen.iter.func.id == "range" and len(gen.iter.args) == 1 and isinstance(gen.target, ast.Name):
+            i = gen.target.id
+            bound = norm(defs.expand(gen.iter.args[0]))
+            found = True
+            ok = bound == f"len({eff_param})" and stride == f"len({eff_param})" and lower == i and sl.upper is None and norm(val.value) == vb_param and norm(comp.key) == f"{eff_param}[{i}]"
+            detail = f"{{{norm(comp.key)}: {norm(val)} for {i} in range({bound})}} with stride {stride}"
+        elif isinstance(gen.iter, ast.Call) and isinstance(gen.iter.func, ast.Name) and gen.iter.func.id == "enumerate" and isinstance(gen.target, ast.Tuple) and len(gen.target.elts) == 2 and gen.iter.args:
+            i, root = norm(gen.target.elts[0]), norm(gen.target.elts[1])
+            found = True
+            ok = norm(gen.iter.args[0]) == eff_param and stride == f"len({eff_param})" and lower == i and sl.upper is None and norm(val.value) == vb_param and norm(comp.key) == root
+            detail = norm(comp)[:120]
     if not found:
         ok = None
         detail = "positional regrouping loop not recognised"
@@ -490,6 +486,11 @@ def check_unfinished(ctx: Ctx, rep: Report, wm: WalkModel) -> None:
     row_cls = ctx.u.classes.get("puresnmp.util:WalkRow")
     fields = dataclass_fields(row_cls) if row_cls else ["value", "unfinished"]
     comps = [n for n in own_nodes(u.node) if isinstance(n, ast.DictComp)]
+    for name, vals in defs.assigns.items():
+        for val, _ in vals:
+            synth = defs.fill_loop(name, val)
+            if isinstance(synth, ast.DictComp):
+                comps.append(synth)
     ok_last = ok_flag = ok_nonempty = False
     detail = ""
     for comp in comps:
@@ -507,7 +508,7 @@ def check_unfinished(ctx: Ctx, rep: Report, wm: WalkModel) -> None:
             ok_last = last is not None and norm(last) in last_forms
             if isinstance(flag, ast.Compare) and len(flag.ops) == 1 and isinstance(flag.ops[0], ast.In):
                 ok_flag = norm(flag.left) in [f"{lf}.oid" for lf in last_forms] and norm(flag.comparators[0]) == k
-            ok_nonempty = any(norm(i) in (v, f"len({v}) > 0", f"len({v})") for i in gen.ifs)
+            ok_nonempty = any(norm(i) in (v, f"len({v}) > 0", f"len({v})", f"not not {v}") for i in gen.ifs)
             detail = norm(comp)
     rep.check(ok_last, "C01-R6", site, "a root continues from the last binding received for it", detail, key=f"{u.key}|not-last")
     rep.check(ok_flag, "C01-R6", site, "a root is unfinished exactly when that last OID is still inside the root (`last.oid in root`)", detail, key=f"{u.key}|unfinished-flag")
